@@ -26,10 +26,10 @@ Inductive hres :=
 
 Definition with_off (h : handle) (o : Z) : handle :=
   mkH (h_path h) (h_cell h) (h_mode h) (h_mtime h) (h_mode_ov h) (h_mtime_ov h) o (h_flag h)
-      (h_wrap h) (h_loaded h) (h_data_err h) (h_fresh h) (h_names h) (h_closed h).
+      (h_wrap h) (h_loaded h) (h_data_err h) (h_fresh h) (h_names h) (h_closed h) (h_size h).
 Definition with_closed (h : handle) : handle :=
   mkH (h_path h) (h_cell h) (h_mode h) (h_mtime h) (h_mode_ov h) (h_mtime_ov h) (h_off h) (h_flag h)
-      (h_wrap h) (h_loaded h) (h_data_err h) (h_fresh h) (h_names h) true.
+      (h_wrap h) (h_loaded h) (h_data_err h) (h_fresh h) (h_names h) true (h_size h).
 
 Definition closed_err (h : handle) : err := PathErr (h_path h) ECLOSED.
 
@@ -39,7 +39,8 @@ Definition not_impl (h : handle) : err :=
 
 (* currentSize *)
 Definition cur_size (st : kv) (h : handle) : kv * handle * Z :=
-  let '(st1, h1, _) := f_data st h in (st1, h1, Z.of_nat (length (cell st1 (h_cell h1)))).
+  let '(st1, h1, _) := f_data st h in
+  let '(h2, n) := f_size st1 h1 in (st1, h2, Z.of_nat n).
 
 (* ReadBlobAt *)
 Definition read_at (st : kv) (h : handle) (len : nat) (off : Z) : kv * handle * list N * option err :=
@@ -134,6 +135,10 @@ Definition hstep (st : kv) (i : nat) (o : hop) : kv * hres :=
   | None => (st, HRBad)
   | Some h =>
     if negb (allowed (h_wrap h) o) then
+      (* the *File helper calls file.Stat() to name the file: that loads a regular file's data (memoised) *)
+      let '(st, h) :=
+        if negb (h_closed h) && is_regular (f_mode h) then (let '(s, h', _) := f_data st h in (put_handle s i h', h'))
+        else (st, h) in
       (st, match o with
            | HWrite _ | HWriteAt _ _ => HRN 0%Z (Some (not_impl h))
            | HReadAt _ _ => HRBytes [] (Some (not_impl h))
@@ -188,8 +193,8 @@ Definition hstep (st : kv) (i : nat) (o : hop) : kv * hres :=
       if h_closed h then (st, HRErr (Some (closed_err h)))
       else
         let '(st1, h1) := if is_regular (f_mode h) then (let '(s, h', _) := f_data st h in (s, h')) else (st, h) in
-        (put_handle st1 i h1,
-         HRInfo (path_base (h_path h)) (h_mode h) (Z.of_nat (length (cell st1 (h_cell h1)))))
+        let '(h2, n) := f_size st1 h1 in
+        (put_handle st1 i h2, HRInfo (path_base (h_path h)) (h_mode h) (Z.of_nat n))
     | HReadDir n =>
       let '(st1, h1, l, e) := read_dir st h n in (put_handle st1 i h1, HREntries l e)
     | HChmod m =>
